@@ -130,7 +130,6 @@ func (r *Receiver) SegmentHandlerFunc(w http.ResponseWriter, req *http.Request) 
 	masterSegDur := ch.masterSegDuration
 	masterTimeShift := ch.masterTimeShift
 	masterSeqNrShift := ch.masterSeqNrShift
-	maxNrBufSegs := ch.maxNrBufSegs
 	ch.mu.RUnlock()
 
 	rsd := &recSegData{name: stream.trName,
@@ -236,9 +235,6 @@ func (r *Receiver) SegmentHandlerFunc(w http.ResponseWriter, req *http.Request) 
 							// Not interesting
 						}
 					}
-				}
-				if maxNrBufSegs > 0 && rsd.seqNr >= maxNrBufSegs {
-					removeOldSegments(log, stream.trDir, stream.ext, rsd.seqNr-maxNrBufSegs)
 				}
 			}
 			//TODO. Add test cases for multiple-chunks rewrite
@@ -411,7 +407,7 @@ func (r *Receiver) DeleteHandlerFunc(w http.ResponseWriter, req *http.Request) {
 // removeOldSegments removes all media segments in trDir with sequence number up to and including lastSeqNr.
 // These are not only the ones falling out of the buffer one by one, but also segments left behind
 // before a gap in the sequence numbers or before a restart of the receiver.
-func removeOldSegments(log *slog.Logger, trDir, ext string, lastSeqNr uint32) {
+func removeOldSegments(log *slog.Logger, trDir string, lastSeqNr uint32) {
 	entries, err := os.ReadDir(trDir)
 	if err != nil {
 		log.Warn("Failed to list segments", "dir", trDir, "err", err)
@@ -419,10 +415,10 @@ func removeOldSegments(log *slog.Logger, trDir, ext string, lastSeqNr uint32) {
 	}
 	for _, entry := range entries {
 		name := entry.Name()
-		if entry.IsDir() || filepath.Ext(name) != ext {
+		if entry.IsDir() {
 			continue
 		}
-		seqNr, err := strconv.ParseUint(strings.TrimSuffix(name, ext), 10, 32)
+		seqNr, err := strconv.ParseUint(strings.TrimSuffix(name, filepath.Ext(name)), 10, 32)
 		if err != nil || uint32(seqNr) > lastSeqNr {
 			continue // Init segment or segment inside the buffer
 		}
